@@ -1,3 +1,6 @@
+import os
+
+
 class NotReadyError(Exception):
     pass
 
@@ -6,9 +9,24 @@ class DeferredCycle(Exception):
     pass
 
 
+# Verification hook (off unless PDPY11_VERIF=1): a step budget for the only
+# fix-point loop of the code base, so that non-termination becomes a
+# deterministic outcome for the model checker instead of a wall-clock timeout.
+_VERIF_BUDGET = int(os.environ.get("PDPY11_VERIF_BUDGET", "20000")) if os.environ.get("PDPY11_VERIF") == "1" else 0
+
+
+class VerifHang(BaseException):
+    pass
+
+
 def wait(deferred):
+    _verif_steps = 0
     while isinstance(deferred, BaseDeferred):
         deferred = deferred.wait()
+        if _VERIF_BUDGET:
+            _verif_steps += 1
+            if _verif_steps > _VERIF_BUDGET:
+                raise VerifHang()
     return deferred
 
 
